@@ -1,5 +1,7 @@
 """C04 bids and fiats change a tasker's state at its next run, last bid wins (engine A)."""
 import random
+from fractions import Fraction
+from math import ceil
 
 from vf.flo import gen, prog as P
 
@@ -17,7 +19,7 @@ META = {"engine": "A floscript", "technique": "runtime history monitor: control 
 
 FEATS = [
     dict(nframers=(2, 4), nframes=(2, 5), p_bids=0.5, p_inactive=0.4, order=True, p_period=0.3, p_stop_bid_mid=0.5, mark_bids=True,
-         p_let=0.2, ticks=(8, 16)),
+         p_let=0.2, ticks=(8, 16), p_bid_period=0.35),
     dict(nframers=(2, 3), nframes=(2, 5), nslaves=(1, 2), p_fiat=0.6, p_bids=0.3, p_inactive=0.3, order=True, mark_bids=True,
          p_let=0.3, ticks=(8, 16), p_stop_bid_mid=0.3),
 ]
@@ -133,11 +135,14 @@ def worker(ctx, job):
         nb = 0
         for i, e in enumerate(res.trace):
             if e["tag"].startswith("bid|"):
-                _, ctl, who, src = e["tag"].split("|")
+                _, ctl, who, src = e["tag"].split("|")[:4]
+                at = (e["tag"].split("|") + [None])[4]
                 targets = taskables if who == "all" else [src if who == "me" else who]
                 for t in targets:
                     if t in ev:
-                        ev[t].append((i + 0.5, "bid", ctl, src))
+                        ev[t].append((i + 0.5, "bid", ctl, src, at))
+                if at is not None:
+                    ctx.hit("bids_with_period")
                 nb += 1
                 ctx.hit("bid_" + ctl)
         status = {n: "stopped" for n in info.sched}
@@ -192,11 +197,19 @@ def worker(ctx, job):
             ev[n].append((s["seq"], "run", s))
             if s["control"] == "abort":
                 ev[n].append((s["seq_end"] - 0.25, "aborted-end", None))
+        Ptick = Fraction(prog.get("period", "0.125"))
+        periods = {fr["name"]: Fraction(fr.get("period") or "0") for fr in prog["houses"][0]["framers"]}
         for n in taskables:
             d = "start" if info.sched[n] == "active" else "stop"
             before = "stopped"
             last_bid = None
             bids_since = 0
+            # when the control arrives: the ideal schedule of the statement of C02 -- first run at tick 0, then each run at the
+            # first tick at or after (sum of the periods in force at the reschedules so far); a bid's `at` period is in force
+            # from the reschedule after the target's next run
+            period, due, prev_tick = periods.get(n, Fraction(0)), Fraction(0), None
+            atbids = sorted((x[0], Fraction(x[4])) for x in ev[n] if x[1] == "bid" and x[4] is not None)
+            nat = 0
             for item in sorted(ev[n], key=lambda x: x[0]):
                 if item[1] == "bid":
                     d = item[2]
@@ -216,6 +229,18 @@ def worker(ctx, job):
                                   s["tick"], n, s["control"], d, last_bid),
                               lambda: wit({"tasker": n, "tick": s["tick"], "received": s["control"], "expected": d,
                                            "last_bid": last_bid}))
+                    need = int(ceil(due / Ptick)) if due > 0 else 0
+                    exp_tick = need if prev_tick is None else max(prev_tick + 1, need)
+                    ctx.check(s["tick"] == exp_tick, "control-not-delivered-at-next-due-tick",
+                              "%s (period %s) received %s at tick %d, its next due tick is %d" % (n, float(period), s["control"], s["tick"], exp_tick),
+                              lambda: wit({"tasker": n, "tick": s["tick"], "due_tick": exp_tick, "period_in_force": float(period),
+                                           "last_bid": last_bid}))
+                    # the skedder reads the period right after the run returns: every `at` bid executed before that instant
+                    # (also one the tasker makes on itself during this very run) is in force for this reschedule
+                    while nat < len(atbids) and atbids[nat][0] < s["seq_end"]:
+                        period = atbids[nat][1]
+                        nat += 1
+                    due, prev_tick = due + period, s["tick"]
                     d = desire_after(s["control"], before, s.get("status"), s["control"])
                     if s["control"] == "start" and before in ("stopped", "readied") and s.get("status") == "stopped":
                         ctx.hit("failed_starts")
@@ -245,4 +270,5 @@ def run(ctx):
     ctx.floor("starts_with_false_condition_after_successful_ready", 2)
     ctx.floor("starts_with_true_first_frame_condition", 100)
     ctx.floor("controls_checked", 2000)
+    ctx.floor("bids_with_period", 20)
     ctx.floor("slave_sends", 100)
